@@ -17,7 +17,7 @@ LEVEL_RULE = (
 )
 EXHAUSTIVE_SUBDOMAINS = ["DF 0..31 x {56,112} bits x {upper,lower,mixed} for structured addresses (single-bit, all-ones, zero)"]
 ASSUMPTIONS = ["canonical form = the string icao() returns for an upper-case DF20 frame of the same address (%06X)"]
-REQUIRED = ["df%d" % d for d in range(32)] + ["ap_text_echoed_in_payload", "table_identical_replies_two_aircraft", "case_upper", "case_lower", "case_mixed", "len56", "len112", "table_one_key",
+REQUIRED = ["df%d" % d for d in range(32)] + ["ap_text_echoed_in_payload", "literal_structured_strings", "table_identical_replies_two_aircraft", "case_upper", "case_lower", "case_mixed", "len56", "len112", "table_one_key",
                                               "allcall_rejects", "df_none"]
 
 AP = (0, 4, 5, 16, 20, 21)
@@ -42,6 +42,17 @@ def m_icao(ctx, case):
         addr = int(h0[-6:], 16) ^ int(h0[p0:p0 + 6], 16)
         ctx.hit("ap_text_echoed_in_payload")
     f = bits.downlink(df, body, n, addr, case.get("ic", 0))
+    if case.get("literal"):
+        # ANY hex string of the right length is a legal address/parity frame of SOME transponder (address = parity XOR AP):
+        # strings with internal structure (periodic, mirrored, two equal halves) are taken literally
+        f = int(case["literal"], 16)
+        n = 4 * len(case["literal"])
+        df = min(f >> (n - 5), 24)
+        if df in AP:
+            addr = bits.parity(f >> 24, n) ^ (f & 0xFFFFFF)
+        elif df in AA:
+            addr = (f >> (n - 32)) & 0xFFFFFF
+        ctx.hit("literal_structured_strings")
     hx = bits.tohex(f, n, case["hexcase"], rng)
     if case.get("echo") is not None and df in AP and hx[-6:].upper() not in hx[:-6].upper():
         raise AssertionError("echo construction failed")
@@ -168,6 +179,23 @@ def cases(ctx):
         df = rng.choice(AP)
         yield "icao", {"df": df, "n": bits.df_len(df), "addr": 0, "body": "%X" % rng.fill(83), "echo": rng.randrange(1000),
                        "hexcase": rng.choice(("upper", "upper", "lower", "mixed")), "ic": 0}
+    for k in range(ctx.share(6000 if quick else 100000)):
+        L = rng.choice((14, 28, 28))
+        kind = k % 4
+        if kind == 0:      # periodic
+            per = rng.choice([p_ for p_ in (1, 2, 4, 7, 14) if L % p_ == 0])
+            unit = "%0*X" % (per, rng.getrandbits(4 * per))
+            lit = unit * (L // per)
+        elif kind == 1:    # two equal halves with a random first byte carrying a DF of interest
+            half = "%02X" % ((rng.choice(AP + AA) << 3) | rng.randrange(8)) + "%0*X" % (L // 2 - 2, rng.getrandbits(4 * (L // 2 - 2)))
+            lit = half * 2
+        elif kind == 2:    # mirrored
+            half = "%0*X" % (L // 2, rng.getrandbits(2 * L))
+            lit = half + half[::-1]
+        else:              # a short motif embedded repeatedly
+            mot = "%06X" % rng.getrandbits(24)
+            lit = ("%02X" % ((rng.choice(AP) << 3) | rng.randrange(8)) + mot * 5)[:L]
+        yield "icao", {"df": 0, "n": 4 * L, "addr": 0, "body": "0", "literal": lit, "hexcase": rng.choice(("upper", "upper", "lower", "mixed")), "ic": 0}
     for k in range(ctx.share(3000 if quick else 20000)):
         yield "table", {"addr": rng.fill(24) | 0xA00000, "cs": "%X" % rng.fill(48), "df": rng.choice((20, 21)),
                         "hexcase": "upper" if k % 2 == 0 else rng.choice(("lower", "mixed")), "hexcase2": rng.choice(("upper", "lower")), "twin": k % 2 == 0}
